@@ -365,7 +365,7 @@ def run(case):
         elif verdict == 'accept' and image_of(detail) != base_image:
             viol('torn-file-accepted', f'prefix[:{b}]', 'rejected, or the same image as the intact file',
                  'accepted with a different image')
-        if dt > time_bound:
+        if dt > time_bound and open_variant(F[:b])[2] > time_bound:      # (re-measured: not a stall of the machine)
             viol('time', f'prefix[:{b}]', f'<= {time_bound:.2f}s', f'{dt:.2f}s')
     # ---- 2. lost blocks (zero-filled)
     for bs in (64, 512):
@@ -407,7 +407,7 @@ def run(case):
         mem_bound = 40_000_000 + 400 * (len(b) + 64 * _decompressed_len(b)) + 200_000 * min(h['nseg'], 64)
         if peak > mem_bound:
             viol('allocation', name, f'peak <= {mem_bound} bytes (40 MB for the lzma decoder + linear in file size)', f'{peak} bytes')
-        if dt > time_bound * 4:
+        if dt > time_bound * 4 and open_variant(b, real=True)[2] > time_bound * 4:
             viol('time', name, f'<= {time_bound * 4:.2f}s', f'{dt:.2f}s')
     # ---- 4. payload damage
     pay_off = h['table_off'] + 32 * h['nseg']
@@ -447,7 +447,7 @@ def run(case):
         elif verdict == 'accept' and image_of(detail) != base_image:
             viol('tail-changes-image', f'tail+{len(tail)}', 'rejected, or the same image as the intact file',
                  'accepted with a different image')
-        if dt > 1.0 + len(b) / 20000.0:
+        if dt > 1.0 + len(b) / 20000.0 and open_variant(b, real=True)[2] > 1.0 + len(b) / 20000.0:
             viol('time', f'tail+{len(tail)}', 'linear in file size', f'{dt:.2f}s for {len(b)} bytes')
     # ---- 4c. scaling: doubling the file must not quadruple the time (no super-linear reader)
     if case['seed'] % 6 == 0:
@@ -457,6 +457,12 @@ def run(case):
             _, _, t2, _ = open_variant(F + fill * (2 * n1), real=True)
             evals += 2
             count('scaling-probe')
+            if t2 > 0.6 and t2 > 3.2 * max(t1, 0.02):
+                # a stall of the machine must not look like a super-linear reader: measure twice more, keep the
+                # fastest t(2n) and the slowest t(n)
+                for _ in range(2):
+                    t1 = max(t1, open_variant(F + fill * n1, real=True)[2])
+                    t2 = min(t2, open_variant(F + fill * (2 * n1), real=True)[2])
             if t2 > 0.6 and t2 > 3.2 * max(t1, 0.02):
                 viol('time-superlinear', f'tail {fill!r}*n', f't(2n) <= 3.2 t(n) (n={n1} bytes took {t1:.2f}s)',
                      f't(2n) = {t2:.2f}s')
